@@ -4,7 +4,9 @@
    _MIR_output_data_item_els on one directly constructed minimal item per kind, symbolic scalar payloads, pointer and bounds
    checks on: returns normally, no invalid dereference, prints exactly the lines of its own item kind, ends with a newline.
 2. STRING ESCAPES: real MIR_output_str -> harness buffer -> real scan_string (get_string_char/unget_string_char): all byte
-   strings of length <= 2 (quick) / 3 (thorough)."""
+   strings of length <= 2 (quick) / 3 (thorough).
+3. OPERAND SYNTAX: real MIR_output_op on a symbolic memory operand -> text -> reference reader written from MIR.md's operand
+   syntax (ref/mirtext_ref.h): the text is a memory operand and denotes the operand printed."""
 from vlib import Ob, run_all, MEMSAFE
 
 WDEFS = ["MIR_NO_IO=1", "MIR_NO_INTERP", "MIR_NO_SCAN=1"]
@@ -23,6 +25,11 @@ WREC = {"MIR_output_op": 2, "output_label": 2}
 KINDS = {"import": 1, "export": 2, "forward": 3, "proto": 4, "bss": 7, "ref": 8, "lref": 9}
 TYPES = ["i8", "u8", "i16", "u16", "i32", "u32", "i64", "u64", "f", "d", "ld", "p"]
 FORMS = ["reg", "int", "uint", "float", "double", "ldouble", "mem", "mem_alias", "ref", "str", "label"]
+
+
+# cbmc 6.11's own function-pointer removal resolves `(op.mode == MIR_OP_MEM ? output_reg : output_var) (...)` to unrelated functions;
+# goto-instrument --restrict-function-pointer replaces the two calls by a case split over the two real targets (and asserts it)
+RFP = ["MIR_output_op.function_pointer_call.%d/output_reg,output_var" % k for k in (1, 2)]
 
 
 def wob(name, defs, sample, timeout=900, **kw):
@@ -47,15 +54,16 @@ def obligations(tier):
     for n, fn in enumerate(FORMS):
         if not thorough and fn not in ("reg", "int", "ldouble", "mem", "mem_alias", "ref", "str", "label"):
             continue
-        obs.append(wob("func." + fn, ["KIND=5", "FORMS=%d" % (1 << n)],
+        memkw = {"restrict_fp": RFP} if fn.startswith("mem") else {}
+        obs.append(wob("func." + fn, ["KIND=5", "FORMS=%d" % (1 << n)] + (["H_MEM_REGS=1"] if fn.startswith("mem") else []),
                        "MIR_output_item on func f (results i64,d; args a:i64, b:blk1:size, c:rblk:size; locals r1,r2), a label, "
-                       "one insn with a %s operand (symbolic payload; mem: disp/scale any, base/index absent, "
-                       "alias/nonalias none|al|nal), ret" % fn, timeout=1500))
+                       "one insn with a %s operand (symbolic payload; mem: disp/scale any, base/index each absent or one of 5 registers, "
+                       "alias/nonalias none|al|nal), ret" % fn, timeout=1500, **memkw))
     if thorough:
         for t, tn in enumerate(TYPES):
             if tn != "u16":
-                obs.append(wob("func.mem.%s" % tn, ["KIND=5", "FORMS=%d" % (1 << 6), "H_MTYPE=%d" % t],
-                               "as out.func.mem with memory type %s" % tn, timeout=1500))
+                obs.append(wob("func.mem.%s" % tn, ["KIND=5", "FORMS=%d" % (1 << 6), "H_MTYPE=%d" % t, "H_MEM_REGS=1"],
+                               "as out.func.mem with memory type %s" % tn, timeout=1500, restrict_fp=RFP))
     # expr item (suspected defect F3): pointer checks are replaced by the harness's own assertions - with the standard checks on,
     # cbmc 6.11 aborts in fatal_assertions.cpp once a dereference check fails; the native replay runs under ASan anyway
     eloops = dict(WLOOPS)
@@ -64,6 +72,18 @@ def obligations(tier):
         obs.append(Ob("out.expr" + ("" if named else ".anon"), "C10/out.c", defs=WDEFS + ["KIND=10", "H_NAMED=%d" % named], loops=eloops,
                       unwindset=WREC, unwind=1, checks="memsafe", object_bits=12, timeout=900,
                       sample="MIR_output_item on an expr item referring to func f"))
+    # fragment 3: memory operand text against the reference reader (ref/mirtext_ref.h); the indirect calls
+    # `(op.mode == MIR_OP_MEM ? output_reg : output_var) (...)` get their two targets by goto-instrument --restrict-function-pointer
+    mloops = dict(WLOOPS)
+    mloops.update({"rt_blanks#0": 5, "rt_name#0": 8, "rt_int#0": 21, "rt_streq#0": 9, "h_fprintf#0": 8, "h_fprintf#1": 4, "h_fprintf#2": 6})
+    for t, tn in enumerate(TYPES):
+        if not thorough and tn not in ("i64", "u8"):
+            continue
+        obs.append(Ob("op.mem." + tn, "C10/memop.c", defs=WDEFS + ["H_MTYPE=%d" % t], loops=mloops, unwindset=WREC, unwind=3, checks="memsafe",
+                      object_bits=12, timeout=1500,
+                      restrict_fp=RFP,
+                      sample="MIR_output_op on a %s memory operand: base and index each absent or one of 5 registers, disp and scale symbolic, "
+                             "alias/nonalias in {none, al, nal}; text read back by the reference reader of MIR.md's operand syntax" % tn))
     sloops = {"h_setup#7": 7, "scan_string#0": 17, "scan_string#1": 3, "MIR_output_str#0": 4, "h_fprintf#0": 6, "h_fprintf#1": 3,
               "h_fprintf#2": 2, "harness#0": 4, "harness#1": 4, "memcpy#0": 3, "memcpy#1": 5, "memcmp#0": 5, "memset#0": 5,
               "memset#1": 30, "HTAB_string_t_do#0": 13, "VARR_charpush_arr#0": 2, "strlen#0": 2}
@@ -86,9 +106,11 @@ META = {
         "items": "one item per kind; names <= 7 characters; func f with 2 results, 3 args (i64, blk1, rblk), 2 locals, no globals; "
                  "insns have ONE operand (ops[0]): addressing ops[i>0] of the struct MIR_insn flexible tail is not exercised; "
                  "data items have 2 elements; memory operand type concrete per obligation (quick: u16; thorough: all 12)",
-        "memory operands": "base and index registers ABSENT: mir.c prints them through `(op.mode == MIR_OP_MEM ? output_reg : "
-                           "output_var) (...)`, which cbmc 6.11's function-pointer removal resolves to unrelated functions "
-                           "(spurious failure, callee never entered); register printing itself is covered by out.func.reg",
+        "memory operands": "base and index registers each absent or one of the function's 5 registers; mir.c prints them through "
+                           "`(op.mode == MIR_OP_MEM ? output_reg : output_var) (...)`: the two call sites are given their two real targets "
+                           "with goto-instrument --restrict-function-pointer (which also asserts that the pointer is one of them), because "
+                           "cbmc 6.11's own function-pointer removal resolves them to unrelated functions; op.mem.*: the printed text is "
+                           "read back by the reference reader ref/mirtext_ref.h (MIR.md operand syntax) and compared field by field",
         "symbolic": "int/uint/float/double/ldouble immediates, label numbers, disp, scale 0..255, "
                     "alias/nonalias in {none, al, nal}, register number, bss length, ref/lref disp, data elements, blk sizes, "
                     "2 string bytes of the str operand, proto vararg flag",
@@ -98,8 +120,8 @@ META = {
         "recursion": "MIR_output_op -> output_label -> MIR_output_op unwound to depth 2 (unwinding assertion on)",
         "out of the claim": "decimal and floating formatting/parsing (%d %u %ld %lu %.*e %.*Le, strtod, strtoul are libc: CBMC has no "
                             "model), so integer and floating-point immediates surviving the text round trip is outside; "
-                            "names/labels/memory-operand syntax re-scanned by the scanner's operand branch (not attempted: needs "
-                            "MIR_scan_string with module/func creation); whole-module text identity and execution identity after re-scan",
+                            "names/labels re-scanned by the REAL scanner's operand branch (not attempted: needs MIR_scan_string with "
+                            "module/func creation; memory-operand syntax is checked against a reference reader instead); whole-module text identity and execution identity after re-scan",
     },
     "assumptions": [
         "state constructed directly as static C data (no MIR_init): context, string/alias tables, function f with 5 registers; "
